@@ -40,44 +40,47 @@ var repo = "/repo"
 
 // target describes one Go function to translate.
 type target struct {
-	File     string            // path below the repository root
-	Recv     string            // receiver type name ("" = plain function)
-	Func     string            // function name
-	Lean     string            // name of the generated definition
-	Sig      string            // Lean binder list + result type, e.g. "(r : Limiter) (now : Int) : Limiter × Int"
-	RecvVar  string            // when set: the receiver is state; results are paired with it
-	RetState bool              // return (recv', result)
-	Syms     map[string]string // symbol table: Go callee / selector text -> Lean function (overrides the defaults)
-	Skip     []string          // calls (rendered Go text of the callee) dropped as effect-free
-	Fuel     []string          // Lean fuel expression for the k-th 3-clause / cond loop
-	Rename   map[string]string // Go identifier -> Lean identifier (params named `_`, keywords, ...)
-	Doc      string
-	Prop     string // property whose generated file (Generated/Code<Prop>.lean) holds the definition
-	StrLit   string // wrapper applied to string literals ("" = Lean String)
-	Partial  bool   // the function may panic / uses fuelled loops: the result is an Option
-	Effects  map[string]string // statement-level calls with an effect: callee text -> Lean function `f fx args..` : the new `fx`
-	Fall     string            // Lean term for falling off the end / a bare `return` (default `()`, or the receiver)
-	Imports  []string          // extra imports of the generated file of this property
-	Lit      int               // > 0: translate the Lit-th function literal (closure) inside the function instead
-	Calls    map[string]string // calls with an effect AND a result: callee text -> Lean `f fx args..` : (result, fx')
-	RetFmt   string            // how a returned value is packed, e.g. "(i, fx, %s)" (also used for falling off the end)
-	SkipDeferLit bool          // `defer func(){...}()` closures are dropped (logging only)
+	File         string            // path below the repository root
+	Recv         string            // receiver type name ("" = plain function)
+	Func         string            // function name
+	Lean         string            // name of the generated definition
+	Sig          string            // Lean binder list + result type, e.g. "(r : Limiter) (now : Int) : Limiter × Int"
+	RecvVar      string            // when set: the receiver is state; results are paired with it
+	RetState     bool              // return (recv', result)
+	Syms         map[string]string // symbol table: Go callee / selector text -> Lean function (overrides the defaults)
+	Skip         []string          // calls (rendered Go text of the callee) dropped as effect-free
+	Fuel         []string          // Lean fuel expression for the k-th 3-clause / cond loop
+	Rename       map[string]string // Go identifier -> Lean identifier (params named `_`, keywords, ...)
+	Doc          string
+	Prop         string            // property whose generated file (Generated/Code<Prop>.lean) holds the definition
+	StrLit       string            // wrapper applied to string literals ("" = Lean String)
+	Partial      bool              // the function may panic / uses fuelled loops: the result is an Option
+	Effects      map[string]string // statement-level calls with an effect: callee text -> Lean function `f fx args..` : the new `fx`
+	Fall         string            // Lean term for falling off the end / a bare `return` (default `()`, or the receiver)
+	Imports      []string          // extra imports of the generated file of this property
+	Lit          int               // > 0: translate the Lit-th function literal (closure) inside the function instead
+	Calls        map[string]string // calls with an effect AND a result: callee text -> Lean `f fx args..` : (result, fx')
+	RetFmt       string            // how a returned value is packed, e.g. "(i, fx, %s)" (also used for falling off the end)
+	SkipDeferLit bool              // `defer func(){...}()` closures are dropped (logging only)
+	MutRange     bool              // `for _, e := range xs { e.f = v }` over a slice of POINTERS: the loop rebuilds `xs` element by element
+	Post         string            // raw Lean text emitted after the definition (total wrappers of partial definitions)
 }
 
 type tr struct {
-	t        *target
-	fset     *token.FileSet
-	errs     []string
-	loopN    int
-	loopID   map[token.Pos]int // 3-clause / condition loops numbered in source order
-	defers   []string          // deferred effect calls as `let` lines, in source order
-	fnFall   string            // the term for falling off the end of the function
-	joinDepth int              // > 0 while translating the branches of a joined `if`
-	shadowErr string           // set by checkShadow: the definition is then emitted as a translate_error
-	retWrap  func(string) string // how a `return e` is rendered in the current context
-	funcRet  func(string) string // how a `return e` is rendered at function level
-	loopVars []string            // non-nil inside a loop body: state tuple of the loop
-	inLoop   bool
+	t         *target
+	fset      *token.FileSet
+	errs      []string
+	loopN     int
+	loopID    map[token.Pos]int   // 3-clause / condition loops numbered in source order
+	defers    []string            // deferred effect calls as `let` lines, in source order
+	fnFall    string              // the term for falling off the end of the function
+	joinDepth int                 // > 0 while translating the branches of a joined `if`
+	shadowErr string              // set by checkShadow: the definition is then emitted as a translate_error
+	retWrap   func(string) string // how a `return e` is rendered in the current context
+	funcRet   func(string) string // how a `return e` is rendered at function level
+	loopVars  []string            // non-nil inside a loop body: state tuple of the loop
+	inLoop    bool
+	loopPush  string // inside a MutRange loop body: the range variable pushed onto the rebuilt slice at every `next`
 }
 
 func (x *tr) errf(format string, a ...any) string {
@@ -275,14 +278,19 @@ func (x *tr) call(c *ast.CallExpr) string {
 
 // ---- statements
 
-func (x *tr) state() string { // the loop state tuple as a Lean term/pattern
-	if len(x.loopVars) == 0 {
+func (x *tr) state() string { // the loop state tuple as a Lean term (the pattern is built by the loop itself)
+	vars := x.loopVars
+	if x.loopPush != "" {
+		// the last state component is the rebuilt slice: the (possibly updated) element is appended
+		vars = append(append([]string{}, vars[:len(vars)-1]...), "(GoLib.append1 acc' "+x.loopPush+")")
+	}
+	if len(vars) == 0 {
 		return "()"
 	}
-	if len(x.loopVars) == 1 {
-		return x.loopVars[0]
+	if len(vars) == 1 {
+		return vars[0]
 	}
-	return "(" + strings.Join(x.loopVars, ", ") + ")"
+	return "(" + strings.Join(vars, ", ") + ")"
 }
 
 // assigned collects the identifiers (and the receiver variable for field writes) assigned in stmts that are
@@ -883,12 +891,61 @@ func (x *tr) assign(lhs ast.Expr, tok token.Token, rhs string, ind string) strin
 }
 
 func (x *tr) loopBody(body []ast.Stmt, vars []string, ind string) string {
-	saveV, saveL, saveR := x.loopVars, x.inLoop, x.retWrap
-	x.loopVars, x.inLoop = vars, true
+	return x.loopBodyPush(body, vars, "", ind)
+}
+
+// loopBodyPush: `push` != "" marks a MutRange loop (the last state variable is the rebuilt slice `acc'`)
+func (x *tr) loopBodyPush(body []ast.Stmt, vars []string, push string, ind string) string {
+	saveV, saveL, saveR, saveP := x.loopVars, x.inLoop, x.retWrap, x.loopPush
+	x.loopVars, x.inLoop, x.loopPush = vars, true, push
 	x.retWrap = func(v string) string { return "GoLib.Step.ret " + x.funcRet(v) }
 	out := x.stmts(body, "GoLib.Step.next "+x.state(), ind)
-	x.loopVars, x.inLoop, x.retWrap = saveV, saveL, saveR
+	x.loopVars, x.inLoop, x.retWrap, x.loopPush = saveV, saveL, saveR, saveP
 	return out
+}
+
+// writesField: does the statement list assign to a field of `name` (closures excluded)?
+func writesField(stmts []ast.Stmt, name string) bool {
+	found := false
+	for _, s := range stmts {
+		ast.Inspect(s, func(n ast.Node) bool {
+			if as, ok := n.(*ast.AssignStmt); ok && as.Tok != token.DEFINE {
+				for _, l := range as.Lhs {
+					if sel, ok := l.(*ast.SelectorExpr); ok {
+						if id, ok := sel.X.(*ast.Ident); ok && id.Name == name {
+							found = true
+						}
+					}
+				}
+			}
+			if _, ok := n.(*ast.FuncLit); ok {
+				return false
+			}
+			return !found
+		})
+	}
+	return found
+}
+
+// leaves: a return or break anywhere inside (closures and inner loops' breaks included — conservative)
+func leaves(stmts []ast.Stmt) bool {
+	found := false
+	for _, s := range stmts {
+		ast.Inspect(s, func(n ast.Node) bool {
+			switch v := n.(type) {
+			case *ast.FuncLit:
+				return false
+			case *ast.ReturnStmt:
+				found = true
+			case *ast.BranchStmt:
+				if v.Tok == token.BREAK {
+					found = true
+				}
+			}
+			return !found
+		})
+	}
+	return found
 }
 
 func tuple(vars []string) string {
@@ -924,6 +981,36 @@ func (x *tr) rangeLoop(v *ast.RangeStmt, rest []ast.Stmt, fall, ind string) stri
 			}
 		}
 		vars = vars[:k]
+	}
+	if elem != "_" && writesField(v.Body.List, v.Value.(*ast.Ident).Name) {
+		// a write through the range variable: only meaningful for a slice of pointers (no type information here,
+		// so the target has to say so); the loop then rebuilds the slice, element by element, in the state `acc'`
+		if !x.t.MutRange {
+			return x.errf("write to a field of the range variable %s (target not marked MutRange)", elem)
+		}
+		sl, isId := v.X.(*ast.Ident)
+		if !isId {
+			return x.errf("MutRange over %s (not an identifier)", x.src(v.X))
+		}
+		if leaves(v.Body.List) {
+			return x.errf("return/break inside a loop that writes through its range variable")
+		}
+		if x.loopPush != "" {
+			return x.errf("nested MutRange loops")
+		}
+		vars2 := append(append([]string{}, vars...), "acc'")
+		stP := tuple(vars2)
+		ind2 := ind + "    "
+		body := x.loopBodyPush(v.Body.List, vars2, elem, ind2)
+		init := tuple(append(append([]string{}, vars...), "[]"))
+		after := x.stmts(rest, fall, ind+"  ")
+		retArm := "r'"
+		if x.inLoop {
+			retArm = "GoLib.Step.ret r'"
+		}
+		return "match GoLib.forRange " + x.expr(v.X) + " " + init + " (fun " + elem + " " + stP + " =>\n" + ind2 + body + ") with\n" +
+			ind + "| .ret r' => " + retArm + "\n" +
+			ind + "| .done " + stP + " =>\n" + ind + "  let " + x.ident(sl.Name) + " := acc'\n" + ind + "  " + after
 	}
 	st := tuple(vars)
 	ind2 := ind + "    "
@@ -1118,7 +1205,11 @@ func translate(t *target) (string, []string) {
 	if x.shadowErr != "" {
 		body = fmt.Sprintf("(translate_error %q)", x.shadowErr)
 	}
-	return fmt.Sprintf("/-- %s `%s` (%s) -/\ndef %s %s :=\n  %s\n", doc, name, t.File, t.Lean, t.Sig, body), x.errs
+	post := ""
+	if t.Post != "" {
+		post = "\n" + t.Post + "\n"
+	}
+	return fmt.Sprintf("/-- %s `%s` (%s) -/\ndef %s %s :=\n  %s\n%s", doc, name, t.File, t.Lean, t.Sig, body, post), x.errs
 }
 
 func main() {
